@@ -333,7 +333,8 @@ def scenarios(rng, cfg, tier):
         if "unsafe" not in cfg and "corr" not in cfg:
             yield [[(40 * U, 1, ("escape", b), True, None)]], {"dt": dt, "exit_max": 50.0}
             yield [[(40 * U, 0, ("encounter", b), True, None)]], {"dt": dt, "exit_min": 0.01}
-            if cfg not in ("whfast512",):
+            # (BS keeps integrating without particles: its N-body ODE counts as a user ODE)
+            if cfg not in ("whfast512", "bs"):
                 yield [[(40 * U, 1, ("gone", b), True, None)]], {"dt": dt}
         # S5 natural escape of a hyperbolic body
         if cfg.split("-")[0] not in ("whfast512", "sei", "janus"):
